@@ -632,6 +632,8 @@ def from_canon(c, arg=True):
     if k == "x":
         return ("x", None if v is None else bytes.fromhex(v))
     if k == "A":
+        if v is None:
+            return ("A-null",)          # a nil slice: the entry says null, not []
         return ("A", tuple(from_canon(x, False) for x in v))
     if k == "F":
         if v is None:
@@ -1095,6 +1097,8 @@ def coq_fv_canon(c):
     if k == "s":
         return "FStr %s" % coq_bytes(bytes.fromhex(v))
     if k == "A":
+        if v is None:
+            return "FVoid"              # reported as null: what the model reports for the void field, never for an array
         return "FArr [%s]" % "; ".join(coq_fv_canon(x) for x in v)
     if k == "T":
         return "FTime %s" % coq_z(int(v))
